@@ -6,22 +6,40 @@ import pints
 import core
 import oracle
 import toy
+import refsim
+import closedform as cf
 from props import c01, c02, c04
 
 REQUIRED_THEOREMS = [
+    'C03_s1_mech_is_partial', 'C03_s1_sigma_is_partial', 'llS1Raw_eq_llOf',
     'em_hasDerivAt', 'C03_loglik_hasDerivAt', 'C03_s1_layout', 'C03_s1_mech_entry', 'C03_score_agree',
-    'C03_posterior_grad', 'C03_hier_chain']
+    'C03_posterior_grad', 'C03_hier_chain', 'C03_switch_step', 'C03_switch_history', 'C03_switch_from_new',
+    'C03_switch_columns_published_order']
 RULE = ('individual likelihoods (1-4 outputs, any error models, random grids, optional fixed parameters), '
         'log-posteriors with pints priors, hierarchical likelihoods / posteriors over random population '
         'compositions (generator of C02); evaluateS1 is compared with __call__ (score) and with Richardson '
         'finite differences of __call__ (every coordinate); the gradient assembly is compared with the Lean '
-        'model; non-trivial = >=2 outputs, or fixed parameters, or a hierarchical composition with a special or '
-        'wrapped sub-model; distinct = distinct structural keys')
+        'model; evaluations are made in both orders (sensitivities before any plain evaluation, and after); call '
+        'histories on one likelihood (fix_parameters with any mixture of fixing / re-fixing / releasing, releasing '
+        'everything, evaluations in either order, the object left with sensitivities on or off; posteriors and '
+        'hierarchical likelihoods built on likelihoods with such a past) are compared point by point with '
+        'finite differences and, through the Lean model of the sensitivity switch (C03.switch -> delivered columns, '
+        'regimen attached) and the Lean assembly, with independently computed outputs; likelihoods / posteriors / '
+        'hierarchical likelihoods over the library one-compartment PK model with a dosing regimen (bolus or '
+        'infusion, single or periodic, direct or through a depot; harness/refsim.py as solver) are compared with '
+        'the closed-form solution of the documented equations; non-trivial = >=2 outputs, or fixed parameters, '
+        'or a hierarchical composition with a special or wrapped sub-model, or a history, or a dosed model; '
+        'distinct = distinct structural keys')
 ASSUMPTIONS = ['the mechanistic model supplies exact output sensitivities (toy model with closed-form '
-               'derivatives); the ODE solver is not involved',
+               'derivatives, honouring the parameter selection of enable_sensitivities as chi.SBMLModel does); '
+               'for the dosed library model the native solver is absent and harness/refsim.py stands in for '
+               'myokit.Simulation (validated on every run against harness/closedform.py, see '
+               'coverage.refsim_validation)',
                'priors are pints priors, assumed to return their own derivative',
                'population sub-model gradient formulas are C05; here their placement and the chain rule']
 
+N_HISTORY = {'quick': 110, 'thorough': 1500}
+N_DOSED = {'quick': 14, 'thorough': 120}
 TAG3 = 'C03.covariate_over_pooled'
 TAG22 = 'C03.sensitivities_with_all_mechanistic_parameters_fixed'
 
@@ -98,6 +116,35 @@ def whole_numbers(ctx, tag, obj, x, inp):
     ctx.number_types(tag + '.whole_number_parameters', f, whole, inp)
 
 
+def sensitivities_first(ctx, tag, obj, x, inp):
+    """the very first evaluation of a newly built / newly configured object is one WITH sensitivities (a
+    gradient-based sampler's first step); returns what it gave, to be compared with the evaluations made after
+    plain ones"""
+    try:
+        with np.errstate(all='ignore'):
+            s, g = obj.evaluateS1(np.array(x, float))
+        return float(s), np.array(g, float)
+    except Exception as e:  # noqa
+        return e
+
+
+def compare_first(ctx, tag, pre, v, s, g, inp):
+    if pre is None:
+        return
+    if isinstance(pre, Exception):
+        ctx.spec(tag + ('.succeeds_where_finite' if math.isfinite(v) else '.nonfinite_reported'), False,
+                 dict(inp, order='evaluateS1 first'), {'call': v, 'evaluateS1_raised': repr(pre)[:200]})
+        return
+    if not math.isfinite(v):
+        ctx.spec(tag + '.nonfinite_reported', not math.isfinite(pre[0]), dict(inp, order='evaluateS1 first'),
+                 {'call': v, 'S1': pre[0]})
+        return
+    ok = core.close(pre[0], v) and (g is None or core.close(list(pre[1]), list(g), 1e-9, 1e-12))
+    ctx.spec(tag + '.sensitivities_before_any_plain_evaluation', ok, dict(inp, order='evaluateS1 first'),
+             {'first evaluateS1': pre, 'call': v, 'evaluateS1 after the plain evaluation': (s, g)})
+
+
+
 # ------------------------------------------------------------------------------------------------
 def loglik_case(ctx, chi, rng, i):
     kinds, grids, obs, n_mech, psi, sig = c01.gen_case(rng)
@@ -122,6 +169,7 @@ def loglik_case(ctx, chi, rng, i):
              nontrivial=('LL/%s/%s/%s' % (''.join(kinds), [len(g) for g in grids], sorted(fixed)))
              if (len(kinds) >= 2 or fixed) else False, sample=inp)
     all_mech_fixed = all(n in fixed for n in names[:n_mech])
+    pre = sensitivities_first(ctx, 'C03.LogLikelihood', ll, x, inp) if rng.random() < 0.5 else None
     with np.errstate(all='ignore'):
         v = float(ll(x))
     try:
@@ -133,6 +181,7 @@ def loglik_case(ctx, chi, rng, i):
                  False, inp, {'call': v, 'raised': repr(e)[:200]})
         return
     v, s, g = score_consistency(ctx, 'C03.LogLikelihood', ll, ll.evaluateS1, x, inp)
+    compare_first(ctx, TAG22 if all_mech_fixed else 'C03.LogLikelihood', pre, v, s, g, inp)
     if g is None or not math.isfinite(v):
         return
     fd_all(ctx, ll, x, g, 'C03.LogLikelihood.gradient_is_derivative', inp)
@@ -189,6 +238,314 @@ def loglik_case(ctx, chi, rng, i):
 
 
 # ------------------------------------------------------------------------------------------------
+# call histories on ONE object: fix / release (any mixture in one call) interleaved with evaluations in
+# either order — the sensitivity switch, the selection of sensitivity columns and (for dosed models) the
+# solver the regimen is attached to are state that every such call may touch
+# ------------------------------------------------------------------------------------------------
+def same_point_any_order(ctx, tag, obj, x, inp, s1_first, fd=None, rtol=1e-9):
+    """the property at ONE point, with the two kinds of evaluation made in the given order and repeated:
+    score(evaluateS1) == score(__call__) whichever came first, gradient == derivative of __call__"""
+    x = np.array(x, float)
+    seq = ['S1', 'call', 'S1', 'call'] if s1_first else ['call', 'S1', 'call', 'S1']
+    plain, withs, grads, raised = [], [], [], None
+    for op in seq:
+        with np.errstate(all='ignore'):
+            if op == 'call':
+                plain.append(float(obj(x.copy())))
+            else:
+                try:
+                    s, g = obj.evaluateS1(x.copy())
+                    withs.append(float(s))
+                    grads.append(np.array(g, float))
+                except Exception as e:  # noqa
+                    raised = repr(e)[:200]
+                    withs.append(None)
+                    grads.append(None)
+    inp = dict(inp, x=x, order=seq)
+    v = plain[0]
+    if raised is not None:
+        ctx.spec(tag + ('.succeeds_where_finite' if math.isfinite(v) else '.nonfinite_reported'), False, inp,
+                 {'call': plain, 'evaluateS1_raised': raised})
+        return None, None
+    if all(math.isfinite(p) for p in plain):
+        ctx.spec(tag + '.score_agrees', all(core.close(s, p, rtol) for s in withs for p in plain), inp,
+                 {'call': plain, 'S1': withs})
+    else:
+        ctx.spec(tag + '.nonfinite_reported', all(not math.isfinite(s) for s in withs)
+                 and all(not math.isfinite(p) for p in plain), inp, {'call': plain, 'S1': withs})
+        return withs[0], None
+    ok_len = all(len(g) == len(x) for g in grads)
+    ctx.spec(tag + '.gradient_length', ok_len, inp, {'len': [len(g) for g in grads], 'n': len(x)})
+    if not ok_len:
+        return withs[0], None
+    ctx.spec(tag + '.gradient_repeatable', core.close(grads[0], grads[1], rtol), inp,
+             {'first': grads[0], 'second': grads[1]})
+    if fd is not None:
+        # (finite differences of the object's own plain evaluation — made AFTER evaluateS1 has run on it)
+        fd_all(ctx, obj, x, grads[0], tag + '.gradient_is_derivative', inp, coords=fd)
+    return withs[0], grads[0]
+
+
+def random_update(rng, names, n_mech, fixed, current):
+    """the argument of ONE fix_parameters call: release everything / every mechanistic parameter, or any
+    mixture of fixing, re-fixing at another value and releasing; never leaves the object without parameters"""
+    r = rng.random()
+    mech_fixed = [n for n in fixed if n in names[:n_mech]]
+    if fixed and r < 0.25:
+        return {n: None for n in fixed}
+    if mech_fixed and r < 0.45:
+        return {n: None for n in mech_fixed}
+    if r < 0.6 and len(names) - len(fixed) > 1:
+        free_mech = [n for n in names[:n_mech] if n not in fixed]
+        if free_mech:
+            n = free_mech[int(rng.integers(len(free_mech)))]
+            return {n: float(current[n])}
+    upd = {}
+    k = int(rng.integers(1, min(3, len(names)) + 1))
+    for j in rng.choice(len(names), size=k, replace=False):
+        n = names[int(j)]
+        if n in fixed and rng.random() < 0.6:
+            upd[n] = None
+        else:
+            upd[n] = float(current[n] * rng.uniform(0.95, 1.05))
+    after = {n for n in fixed if n not in upd} | {n for n, v in upd.items() if v is not None}
+    if len(after) >= len(names):
+        upd[sorted(after)[int(rng.integers(len(after)))]] = None
+    return upd
+
+
+def run_history(ctx, rng, kit, n_steps):
+    """kit: dict(tag, make() -> fresh object, names, n_mech, kinds, values {name: value}, inp,
+    outs(full mechanistic vector, dosed) -> [[ybar, S rows (all mechanistic columns), obs] per output],
+    fd (number of coordinates for finite differences or None = all), rtol_model, dosed (bool), pkpd (bool))"""
+    tag, names, n_mech = kit['tag'], kit['names'], kit['n_mech']
+    obj = kit['make']()
+    fixed = {}
+    current = dict(kit['values'])
+    script, ops, evals = [], [], []
+    for step in range(n_steps):
+        if step > 0 or rng.random() < 0.7:
+            upd = random_update(rng, names, n_mech, fixed, current)
+            if upd:
+                obj.fix_parameters(upd)
+                for n, v in upd.items():
+                    if v is None:
+                        fixed.pop(n, None)
+                    else:
+                        fixed[n] = v
+                        current[n] = v
+                script.append(['fix_parameters', dict(upd)])
+                ops.append(['fix', [[names.index(n), v is not None] for n, v in upd.items()
+                                    if n in names[:n_mech]]])
+        free = [n for n in names if n not in fixed]
+        for n in free:
+            current[n] = float(current[n] * rng.uniform(0.97, 1.03))
+        x = np.array([current[n] for n in free])
+        inp = dict(kit['inp'], history=[list(s_) for s_ in script], fixed=dict(fixed), free=free)
+        ok_names = list(obj.get_parameter_names()) == free
+        ctx.spec(tag + '.published_order', ok_names, inp, {'names': list(obj.get_parameter_names()), 'free': free})
+        if not ok_names:
+            return None
+        s1_first = bool(rng.random() < 0.6)
+        nfd = kit.get('fd')
+        coords = None if nfd is None else sorted(int(c) for c in rng.choice(len(x), size=min(nfd, len(x)),
+                                                                            replace=False))
+        s, g = same_point_any_order(ctx, tag, obj, x, inp, s1_first, fd=(range(len(x)) if coords is None else coords),
+                                    rtol=kit.get('rtol_same', 1e-9))
+        script.append(['evaluateS1,__call__,...' if s1_first else '__call__,evaluateS1,...', x])
+        k_s1 = len(ops) + (0 if s1_first else 1)          # position of this point's first evaluateS1
+        ops += ([['s1'], ['call'], ['s1'], ['call']] if s1_first else [['call'], ['s1'], ['call'], ['s1']])
+        ops.append(['call'])                               # (the finite differences are plain evaluations)
+        evals.append((k_s1, dict(current), dict(fixed), s, g, inp))
+        if rng.random() < 0.65:
+            # leave the object the way a gradient-based run leaves it
+            with np.errstate(all='ignore'):
+                obj.evaluateS1(x * rng.uniform(0.98, 1.02, len(x)))
+            script.append(['evaluateS1', 'nearby'])
+            ops.append(['s1'])
+    # correspondence with the Lean model of the switch: the columns it says the mechanistic model delivers at
+    # each evaluateS1 (and whether the regimen is attached to the solver in use) determine, through the Lean
+    # assembly (C03.s1) on independently computed outputs / sensitivities, the gradient chi must return
+    (res,) = ctx.model('C03.switch', n_mech, bool(kit.get('pkpd', False)), bool(kit.get('dosed', False)), ops)
+    for k, cur, fx, s, g, inp in evals:
+        if g is None:
+            continue
+        r = res[k]
+        if not isinstance(r, (list, tuple)) or len(r) != 2:
+            ctx.agree(tag + '/switch.evaluable', 'ok', r, inp)
+            continue
+        cols, attached = [int(c) for c in r[0]], bool(r[1])
+        outs = kit['outs']([cur[n] for n in names[:n_mech]], attached)
+        outs = [[yb, [[row[c] for c in cols] for row in S], ob] for yb, S, ob in outs]
+        sig_names = names[n_mech:]
+        raw, mg = ctx.model('C03.s1', len(cols), kit['kinds'], [cur[n] for n in sig_names], outs)
+        mg = list(mg)
+        pred = mg[:len(cols)] + [mg[len(cols) + j] for j, n in enumerate(sig_names) if n not in fx]
+        rt = kit.get('rtol_model', 1e-8)
+        scale = max([1.0] + [abs(v) for v in pred])
+        ctx.agree(tag + '/switch.score', s, raw, inp, rtol=rt)
+        ctx.agree(tag + '/switch.gradient', list(g), pred, inp, rtol=rt, atol=rt * scale)
+    free = [n for n in names if n not in fixed]
+    return {'obj': obj, 'history': [list(s_) for s_ in script], 'x': np.array([current[n] for n in free])}
+
+
+def toy_history_case(ctx, chi, rng, i, n_steps=None, n_mech_min=1):
+    kinds, grids, obs, n_mech, psi, sig = c01.gen_case(rng)
+    while n_mech < n_mech_min:
+        kinds, grids, obs, n_mech, psi, sig = c01.gen_case(rng)
+    sig = [abs(s) + 0.3 if s <= 0 else s for s in sig]
+    _, probe = c01.build(chi, kinds, grids, obs, n_mech, i)
+    names = list(probe.get_parameter_names())
+    model = toy.ToyModel(len(kinds), n_mech, i, c01.offsets(kinds, i))
+
+    def outs(p, dosed):
+        return [[[model.value(p, o, t) for t in grids[o]],
+                 [[model.dvalue(p, o, t, k) for k in range(n_mech)] for t in grids[o]], list(obs[o])]
+                for o in range(len(kinds))]
+    inp = {'object': 'LogLikelihood', 'kinds': kinds, 'times': grids, 'obs': obs, 'n_mech': n_mech, 'toy_seed': i}
+    n_steps = n_steps or int(rng.integers(2, 6))
+    ctx.case('LogLikelihood/history%d' % n_steps, nontrivial='hist/%s/%d/%d' % (''.join(kinds), n_mech, n_steps),
+             sample=inp)
+    kit = {'tag': 'C03.LogLikelihood/history', 'make': lambda: c01.build(chi, kinds, grids, obs, n_mech, i)[1],
+           'names': names, 'n_mech': n_mech, 'kinds': kinds, 'values': dict(zip(names, list(psi) + list(sig))),
+           'inp': inp, 'outs': outs, 'fd': None}
+    left = run_history(ctx, rng, kit, n_steps)
+    if left is not None and rng.random() < 0.35:
+        # an object built on a likelihood with such a past, sensitivities asked for first
+        k = len(left['x'])
+        prior = pints.ComposedLogPrior(*[pints.GaussianLogPrior(1.0, 2.0) for _ in range(k)]) if k > 1 \
+            else pints.GaussianLogPrior(1.0, 2.0)
+        post = chi.LogPosterior(left['obj'], prior)
+        same_point_any_order(ctx, 'C03.LogPosterior/history', post, left['x'] * rng.uniform(0.97, 1.03, k),
+                             dict(inp, object='LogPosterior', likelihood_history=left['history']), True,
+                             fd=range(k))
+
+
+# ------------------------------------------------------------------------------------------------
+# a mechanistic model that is an ODE system with a dosing regimen (library one-compartment model, dose into
+# the central compartment or into a depot; harness/refsim.py stands in for the absent native solver); the
+# independent reference is the closed-form solution of the documented equations (harness/closedform.py) with
+# the dose schedule built from the regimen's numbers
+# ------------------------------------------------------------------------------------------------
+CF_KEY = {'central.drug_amount': ('init', 'A'), 'dose.drug_amount': ('init', 'Ad'), 'central.size': ('const', 'V'),
+          'dose.absorption_rate': ('const', 'ka'), 'global.elimination_rate': ('const', 'ke')}
+
+
+def dosed_model(chi, direct, reg):
+    from chi.library import ModelLibrary
+    m = ModelLibrary().one_compartment_pk_model()
+    m.set_administration('central', direct=direct)
+    m.set_dosing_regimen(**reg)
+    return m
+
+
+def gen_regimen(rng):
+    reg = {'dose': float(rng.uniform(2.0, 20.0)), 'start': float(rng.choice([0.0, 0.25, 0.5, 1.0])),
+           'duration': float(rng.choice([0.05, 0.1, 0.5])), 'period': None, 'num': None}
+    if rng.random() < 0.5:
+        reg['period'] = float(rng.choice([1.0, 1.5, 2.0]))
+        reg['num'] = None if rng.random() < 0.4 else int(rng.integers(1, 4))
+    return reg
+
+
+def dosed_setup(chi, rng):
+    direct = bool(rng.random() < 0.5)
+    reg = gen_regimen(rng)
+    kind = c04.KINDS[int(rng.integers(4))]
+    nt = int(rng.integers(3, 7))
+    times = np.sort(rng.choice(np.arange(1, 21) * 0.25, nt, replace=False))
+    model = dosed_model(chi, direct, reg)
+    mnames = list(model.parameters())
+    vals = {'central.drug_amount': float(rng.uniform(0.2, 1.0)), 'dose.drug_amount': float(rng.uniform(0.1, 0.5)),
+            'central.size': float(rng.uniform(0.7, 2.0)), 'dose.absorption_rate': float(rng.uniform(0.5, 2.0)),
+            'global.elimination_rate': float(rng.uniform(0.3, 1.2))}
+    lm = cf.one_compartment_documented(depot=not direct)
+    sched = cf.schedule(reg['dose'], reg['start'], reg['duration'], reg['period'], reg['num'], float(times[-1]) + 1)
+
+    def solve(p, dosed=True):
+        v = dict(zip(mnames, p))
+        x0 = {'A': v['central.drug_amount'], 'Ad': v.get('dose.drug_amount', 0.0)}
+        th = {'V': v['central.size'], 'ke': v['global.elimination_rate'], 'ka': v.get('dose.absorption_rate', 1.0)}
+        return lm.solve(x0, th, list(times), [CF_KEY[n] for n in mnames], ['C'], sched if dosed else [])
+    p0 = [vals[n] for n in mnames]
+    clean = solve(p0)[0][0]
+    obs = clean * rng.uniform(0.85, 1.15, nt) + 0.02
+    sig = list(rng.uniform(0.1, 0.5, 2 if kind == 'CM' else 1))
+    return direct, reg, kind, times, model, mnames, p0, obs, sig, solve
+
+
+def dosed_case(ctx, chi, rng, i):
+    direct, reg, kind, times, model, mnames, p0, obs, sig, solve = dosed_setup(chi, rng)
+    em = c04.classes(chi)[kind][0]
+
+    def make():
+        return chi.LogLikelihood(dosed_model(chi, direct, reg), em(), list(obs), list(times))
+    names = list(make().get_parameter_names())
+    n_mech = len(mnames)
+
+    def outs(p, dosed):
+        y, S = solve(p, dosed)
+        return [[list(y[0]), [list(S[t, 0, :]) for t in range(len(times))], list(obs)]]
+    inp = {'object': 'LogLikelihood', 'mechanistic_model': 'library one-compartment PK model',
+           'administration': 'direct' if direct else 'depot', 'regimen': reg, 'error_model': kind,
+           'times': times, 'obs': obs}
+    ctx.case('LogLikelihood/dosed-%s' % ('direct' if direct else 'depot'),
+             nontrivial='dosed/%s/%s/%s' % (direct, kind, bool(reg['period'])), sample=inp)
+    # the stand-in solver against the closed form on this very model (the oracle's own health)
+    ll = make()
+    x0 = np.array(list(p0) + list(sig))
+    ref = float(np.sum(c04.documented_logpdf(kind, sig, solve(p0)[0][0], obs)))
+    with np.errstate(all='ignore'):
+        fresh = float(ll(x0))
+    ctx.extra.setdefault('refsim_validation', {'oracle': 'harness/closedform.py', 'max_rel_err': 0.0,
+                                               'comparisons': 0})
+    ctx.extra['refsim_validation']['comparisons'] += 1
+    ctx.extra['refsim_validation']['max_rel_err'] = max(ctx.extra['refsim_validation']['max_rel_err'],
+                                                        abs(fresh - ref) / max(1.0, abs(ref)))
+    kit = {'tag': 'C03.LogLikelihood/dosed_model', 'make': make, 'names': names, 'n_mech': n_mech, 'kinds': [kind],
+           'values': dict(zip(names, list(p0) + list(sig))), 'inp': inp, 'outs': outs, 'fd': 2,
+           'rtol_model': 2e-6, 'rtol_same': 1e-7, 'pkpd': True, 'dosed': True}
+    run_history(ctx, rng, kit, int(rng.integers(1, 4)))
+    # objects built on such likelihoods
+    which = i % 3
+    if which == 0:
+        pri = pints.ComposedLogPrior(*[pints.LogNormalLogPrior(0.0, 1.0) for _ in names])
+        post = chi.LogPosterior(make(), pri)
+        same_point_any_order(ctx, 'C03.LogPosterior/dosed_model', post, x0, dict(inp, object='LogPosterior'),
+                             bool(rng.random() < 0.6),
+                             fd=sorted(int(c) for c in rng.choice(len(x0), 2, replace=False)), rtol=1e-7)
+    elif which == 1:
+        n_ids = 2
+        lls = [chi.LogLikelihood(dosed_model(chi, direct, reg), em(), list(obs * rng.uniform(0.9, 1.1, len(obs))),
+                                 list(times)) for _ in range(n_ids)]
+        pop = []
+        hier = []
+        for k in range(len(names)):
+            r = rng.random()
+            pop.append(chi.PooledModel() if r < 0.6 else chi.LogNormalModel() if r < 0.8 else chi.GaussianModel())
+            hier.append(r >= 0.6)
+        if not any(hier):
+            pop[n_mech - 1] = chi.LogNormalModel()
+            hier[n_mech - 1] = True
+        hll = chi.HierarchicalLogLikelihood(lls, chi.ComposedPopulationModel(pop))
+        bottom = [x0[k] * rng.uniform(0.95, 1.05) for _ in range(n_ids) for k in range(len(names)) if hier[k]]
+        top = []
+        for k in range(len(names)):
+            if not hier[k]:
+                top.append(x0[k])
+            elif isinstance(pop[k], chi.LogNormalModel):
+                top += [float(np.log(x0[k])), 0.3]
+            else:
+                top += [x0[k], 0.4]
+        x = np.array(bottom + top)
+        hinp = dict(inp, object='HierarchicalLogLikelihood', n_ids=n_ids,
+                    population=[type(p).__name__ for p in pop])
+        if len(x) == hll.n_parameters():
+            same_point_any_order(ctx, 'C03.Hierarchical/dosed_model', hll, x, hinp, bool(rng.random() < 0.6),
+                                 fd=sorted(int(c) for c in rng.choice(len(x), 2, replace=False)), rtol=1e-7)
+
+
+# ------------------------------------------------------------------------------------------------
 def hier_case(ctx, chi, rng, i, subs=None, n_ids=None):
     if subs is None:
         n_ids, subs = c02.gen_case(rng)
@@ -204,6 +561,18 @@ def hier_case(ctx, chi, rng, i, subs=None, n_ids=None):
         times = np.sort(rng.choice(np.arange(1, 20) * 0.5, nt, replace=False))
         lls.append(chi.LogLikelihood(toy.ToyModel(1, D - 1, seed), chi.GaussianErrorModel(),
                                      list(rng.uniform(0.5, 3.0, nt)), list(times)))
+    # the individual likelihoods may have served a gradient-based analysis of a reduced model before
+    before = None
+    if D >= 2 and rng.random() < 0.25:
+        before = []
+        for ll in lls:
+            nm = ll.get_parameter_names()
+            j = int(rng.integers(D - 1))
+            ll.fix_parameters({nm[j]: 1.0})
+            with np.errstate(all='ignore'):
+                ll.evaluateS1(np.ones(D - 1))
+            ll.fix_parameters({nm[j]: None})
+            before.append(['fix', nm[j], 'evaluateS1', 'release'])
     n_cov = sum(nc for _, _, nc, _ in subs)
     cov = rng.normal(size=(n_ids, n_cov)) * 0.3 if n_cov else None
     pm.set_n_ids(n_ids)
@@ -233,12 +602,15 @@ def hier_case(ctx, chi, rng, i, subs=None, n_ids=None):
     inp = {'object': 'HierarchicalLogLikelihood', 'n_ids': n_ids,
            'subs': [[c02.KINDS[c], nd, nc, sel] for c, nd, nc, sel in subs], 'bare': bare, 'fixed': fixed,
            'x': x, 'cov': cov, 'seed': seed}
+    if before:
+        inp['individual_likelihoods_before'] = before
     codes = [c for c, _, _, _ in subs]
     nontriv = any(c in (5, 6) for c in codes) or n_cov or fixed or len(subs) >= 3
     ctx.case('Hierarchical/nsub%d%s%s' % (len(subs), '+cov' if n_cov else '', '+reduced' if fixed else ''),
              nontrivial=('H/%s/%s' % ([(c02.KINDS[c], nd, nc) for c, nd, nc, _ in subs], bool(fixed)))
              if nontriv else False, sample=inp)
     tag = TAG3 if cov_pooled else 'C03.Hierarchical'
+    pre = sensitivities_first(ctx, tag, hll, x, inp) if (before or rng.random() < 0.4) else None
     with np.errstate(all='ignore'):
         v = float(hll(x))
     try:
@@ -251,6 +623,7 @@ def hier_case(ctx, chi, rng, i, subs=None, n_ids=None):
         return
     rt = TAG3 if cov_pooled else None
     v, s, g = score_consistency(ctx, 'C03.Hierarchical', hll, hll.evaluateS1, x, inp, retag=rt)
+    compare_first(ctx, tag, pre, v, s, g, inp)
     if g is None or not math.isfinite(v) or boundary:
         return          # (at a boundary value finite differences would step outside the support)
     fd_all(ctx, hll, x, g, (TAG3 if cov_pooled else 'C03.Hierarchical.gradient_is_derivative'), inp)
@@ -317,9 +690,16 @@ def run(ctx):
     # corpus: witnesses of known findings and past defects
     hier_case(ctx, chi, ctx.sub_rng(10 ** 6), 0, subs=[(5, 1, 1, None), (0, 1, 0, None)], n_ids=2)
     hier_case(ctx, chi, ctx.sub_rng(10 ** 6 + 1), 1, subs=[(4, 2, 0, None)], n_ids=3)
+    # a parameter fixed for a gradient-based analysis and released afterwards, sensitivities asked for first
+    ctx.guard(toy_history_case, ctx, chi, ctx.sub_rng(10 ** 6 + 2), 2, n_steps=4, n_mech_min=2)
     for i in range(n):
         ctx.guard(loglik_case, ctx, chi, ctx.sub_rng(2 * i), i)
         ctx.guard(hier_case, ctx, chi, ctx.sub_rng(2 * i + 1), i)
+    for i in range(N_HISTORY[ctx.tier]):
+        ctx.guard(toy_history_case, ctx, chi, ctx.sub_rng(3 * 10 ** 6 + i), i)
+    refsim.install()
+    for i in range(N_DOSED[ctx.tier]):
+        ctx.guard(dosed_case, ctx, chi, ctx.sub_rng(4 * 10 ** 6 + i), i)
 
 
 def replay(ctx, data):
